@@ -437,6 +437,99 @@ def case_split_array(c):
     return {'viol': out, 'nontrivial': nontriv, 'outcomes': sorted(outcomes), 'n': nrun, 'extra': cnt}
 
 
+class _Timeout(Exception):
+    pass
+
+
+def _with_alarm(seconds, fn):
+    """Run fn() under a SIGALRM watchdog (a splitter whose loop counter wraps around never returns)."""
+    import signal
+
+    def _h(sig, frm):
+        raise _Timeout()
+    old = signal.signal(signal.SIGALRM, _h)
+    signal.alarm(seconds)
+    try:
+        return fn()
+    finally:
+        signal.alarm(0)
+        signal.signal(signal.SIGALRM, old)
+
+
+def case_typed(c):
+    """Sizes and shifts handed over as numpy fixed-width integers, on a band / an array wide enough for sums of them to leave
+    the type's range: the same pieces as for plain integers."""
+    import setigen as stg
+    viol = []
+
+    def V(site, failure, detail):
+        viol.append({'site': site, 'failure': failure, 'detail': detail})
+    n = 0
+    ty = lambda name, v: None if v is None else (v if name is None else np.dtype(name).type(v))
+    if c['what'] == 'file':
+        nchans = 1000
+        hdr = S.default_header(nchans, 6000.0, c['foff'], TSAMP, tstart=TSTART, source_name='TYPEDSRC')
+        pay = _payload(c['seed'], NINTS, nchans)
+        path = os.path.join(engine.workdir(), 'c19_typed_%s.fil' % engine.sha(c))
+        S.write_fil(path, hdr, pay)
+        try:
+            for fchans, shift, tf, ts_ in c['combos']:
+                n += 1
+                s_ = fchans if shift is None else shift
+                wins = ref_windows(nchans, fchans, s_)
+                tag = 'fchans=%s(%d) f_shift=%s' % (tf, fchans, None if shift is None else '%s(%d)' % (ts_, shift))
+                try:
+                    with contextlib.redirect_stdout(io.StringIO()):
+                        status, res = _with_alarm(60, lambda: _run_generator(path, ty(tf, fchans), None, ty(ts_, shift), nchans + 2))
+                except _Timeout:
+                    V('split_waterfall_generator', 'did_not_return', '%s: no result after 60 s' % tag)
+                    continue
+                if status == 'raised':
+                    V('split_waterfall_generator', 'raised', '%s: %s: %s' % (tag, type(res).__name__, res))
+                    continue
+                if len(res) != len(wins):
+                    V('split_waterfall_generator', 'count', '%s: %d pieces, expected %d' % (tag, len(res), len(wins)))
+                    continue
+                for i, (wf, (a, b)) in enumerate(zip(res, wins)):
+                    d = np.asarray(wf.data)
+                    if d.shape != (NINTS, 1, fchans) or not np.array_equal(d[:, 0, :], pay[:, a:b]):
+                        V('split_waterfall_generator', 'piece_data', '%s: piece %d is not file channels [%d, %d)' % (tag, i, a, b))
+                        break
+        finally:
+            try:
+                os.remove(path)
+            except OSError:
+                pass
+    else:
+        H, W = c['shape']
+        data = np.arange(H * W, dtype=float).reshape(H, W)
+        for th, tw, sh, sw, tname in c['combos']:
+            n += 1
+            eth, etw = (H if th is None else th), (W if tw is None else tw)
+            rows = ref_axis_tiles(H, eth, eth if sh is None else sh)
+            cols = ref_axis_tiles(W, etw, etw if sw is None else sw)
+            want = [(r, q) for r in rows for q in cols]
+            tag = 't_sample_num=%s f_sample_num=%s t_shift=%s f_shift=%s as %s on a %dx%d array' % (th, tw, sh, sw, tname, H, W)
+            try:
+                res = _with_alarm(30, lambda: stg.split_array(data, f_sample_num=ty(tname, tw), t_sample_num=ty(tname, th),
+                                                              f_shift=ty(tname, sw), t_shift=ty(tname, sh)))
+            except _Timeout:
+                V('split_array', 'did_not_return', '%s: no result after 30 s' % tag)
+                continue
+            except Exception as e:
+                V('split_array', 'raised', '%s: %s: %s' % (tag, type(e).__name__, str(e)[:120]))
+                continue
+            got = _tiles_of(res)
+            if got is None or len(got) != len(want):
+                V('split_array', 'tile_count', '%s: %s tiles, expected %d' % (tag, None if got is None else len(got), len(want)))
+                continue
+            for k, (g, (r, q)) in enumerate(zip(got, want)):
+                if np.shape(g) != (r[1] - r[0], q[1] - q[0]) or not np.array_equal(g, data[r[0]:r[1], q[0]:q[1]]):
+                    V('split_array', 'tile_content', '%s: tile %d differs from data[%d:%d, %d:%d]' % (tag, k, r[0], r[1], q[0], q[1]))
+                    break
+    return {'viol': viol, 'n': n, 'nontrivial': [engine.sha(c)], 'outcomes': ['typed/%s' % c['what']]}
+
+
 def run(ctx):
     thorough = ctx.tier == 'thorough'
     arr = [dict(H=H, W=W, seed=ctx.seed) for H in range(1, 7) for W in range(1, 7)]
@@ -445,6 +538,23 @@ def run(ctx):
             for dt in ('int64big', 'complex', 'float32', 'fortran', 'transposed', 'strided', 'reversed')]
     arr.sort(key=lambda c: c['H'] * c['W'])
     ctx.pmap(case_split_array, arr, chunk=1)
+    typed = []
+    for foff in (-2.7939677238464355e-06, 2.7939677238464355e-06):
+        typed.append(dict(what='file', foff=foff, seed=ctx.seed,
+                          combos=[[100, 100, 'int64', 'uint8'], [100, None, 'uint8', None], [100, 100, 'int16', 'int8'],
+                                  [250, 125, 'int32', 'int32'], [64, 200, 'uint8', 'uint8'], [100, 100, None, None]]))
+    for shape in ([4, 1000], [300, 8]):
+        big = shape.index(max(shape))
+        combos = []
+        for tname in ('uint8', 'int8', 'int16', 'int64', None):
+            t = [None, None, None, None]          # th, tw, sh, sw
+            t[1 if big == 1 else 0] = 100
+            combos.append(t + [tname])
+            t2 = list(t)
+            t2[3 if big == 1 else 2] = 100
+            combos.append(t2 + [tname])
+        typed.append(dict(what='array', shape=shape, combos=combos, seed=ctx.seed))
+    ctx.pmap(case_typed, typed, chunk=1)
     cases = []
     for n in (NCHANS if thorough else [n for n in NCHANS if n <= 16]):
         for k, a in enumerate(FOFF):
